@@ -368,6 +368,24 @@ def rule_no_content_cache(ctx, rep):
             + "; ".join(f"{f.qname} -> {sf.qname}:{n.lineno}" for f, sf, n in offenders[:3]),
             cached_on_path=[q for q in sorted(reach) if is_cached(ctx.prog.functions[q])],
         )
+    # the run-wide listings of target files (memoised members of the execution context) are taken once, before any codemod has rewritten
+    # anything: they may depend on names and kinds of files, never on content, size or modification time -- those change as the run goes
+    # on, so a later codemod of a batch would see a selection its own single run would not
+    CONTENT_DEPENDENT = ("stat", "lstat", "getsize", "getmtime", "getctime", "read_bytes", "read_text", "readlines", "read", "parse_module")
+    cx = ctx.prog.cls("codemodder.context.CodemodExecutionContext")
+    for m in cx.methods.values():
+        if not is_cached(m):
+            continue
+        offenders = []
+        for sq in sorted(ctx.cg.reachable([m.qname])):
+            sf = ctx.prog.functions[sq]
+            if sf.qname != m.qname and is_cached(sf) and sf.cls is None:
+                continue  # a module-level memo keyed by its arguments is judged where it is defined
+            for n in walk_no_nested(sf.node):
+                if isinstance(n, ast.Call) and (last_attr(n.func) in CONTENT_DEPENDENT and isinstance(n.func, ast.Attribute) or call_name(n) in ("open", "os.stat", "os.path.getsize", "os.path.getmtime")):
+                    offenders.append((sf, n))
+        rep.check("R-NO-CONTENT-CACHE", m.qname, m.loc(), not offenders, "listing-independent-of-content",
+                  "the memoised listing depends on file content / size / time: " + "; ".join(f"{sf.qname}:{n.lineno} `{unparse(n)[:40]}`" for sf, n in offenders[:3]))
 
 
 def _codec_calls(ctx, fn, which: str):
